@@ -140,8 +140,6 @@ func genNFSRange(rng *rand.Rand) nfsRange {
 	return n
 }
 
-var nfsLockTypes = []nfsv4_xdr.NfsLockType4{nfsv4_xdr.READ_LT, nfsv4_xdr.WRITE_LT, nfsv4_xdr.READW_LT, nfsv4_xdr.WRITEW_LT}
-
 func nfsTypeOf(lt nfsv4_xdr.NfsLockType4) (uint8, bool) {
 	switch lt {
 	case nfsv4_xdr.READ_LT, nfsv4_xdr.READW_LT:
